@@ -189,33 +189,37 @@ class LBPHarness(object):
 # ------------------------------------------------------------------------------------------- oracle (mirror of PlanOK / DistOK)
 
 def plan_failures(p, e):
+    """Failures as (type, text, hosts involved)."""
     out = []
     if len(set(p)) != len(p):
-        out.append(("duplicate", "plan %s repeats a host" % (p,)))
+        out.append(("duplicate", "plan %s repeats a host" % (p,), tuple(sorted(h for h in set(p) if p.count(h) > 1))))
     first = set(e["first"])
     if not e["strict"]:
         if not set(p) <= first:
-            out.append(("unexpected-host", "plan %s contains hosts that are not live %s" % (p, sorted(first))))
+            out.append(("unexpected-host", "plan %s contains hosts that are not live %s" % (p, sorted(first)),
+                        tuple(sorted(set(p) - first))))
         return out
     nf = len(first)
     head = int(e["head"])
     if head and (not p or p[0] != head):
-        out.append(("target-not-first", "plan %s does not start with the target host %d" % (p, head)))
+        out.append(("target-not-first", "plan %s does not start with the target host %d" % (p, head), (head,)))
     if set(p[:nf]) != first:
         missing = first - set(p)
         if missing:
-            out.append(("host-missing", "plan %s lacks %s (must contain, first, all of %s)" % (p, sorted(missing), sorted(first))))
+            out.append(("host-missing", "plan %s lacks %s (must contain, first, all of %s)" % (p, sorted(missing), sorted(first)),
+                        tuple(sorted(missing))))
         else:
-            out.append(("order", "plan %s: the hosts %s must precede every other host" % (p, sorted(first))))
+            out.append(("order", "plan %s: the hosts %s must precede every other host" % (p, sorted(first)), ()))
     remote = {x: set(v) for x, v in e["remote"].items()}
     allremote = set().union(*remote.values()) if remote else set()
     tail = [h for h in p if h not in first]
     bad = [h for h in tail if h not in allremote]
     if bad:
-        out.append(("unexpected-host", "plan %s contains %s which is neither live-local nor live-remote" % (p, bad)))
+        out.append(("unexpected-host", "plan %s contains %s which is neither live-local nor live-remote" % (p, bad),
+                    tuple(sorted(set(bad)))))
     for x, hs in remote.items():
         if len([h for h in set(tail) if h in hs]) > int(e["k"]):
-            out.append(("remote-cap", "plan %s uses more than %d hosts of remote dc %s" % (p, e["k"], x)))
+            out.append(("remote-cap", "plan %s uses more than %d hosts of remote dc %s" % (p, e["k"], x), ()))
     return out
 
 
@@ -225,26 +229,26 @@ def dist_failures(dist, p, e, known, live):
     for h in sorted(known):
         d = dist[h - 1]
         if d not in e["dist"][h - 1]:
-            out.append(("distance", "distance(h%d) = %s, admissible %s" % (h, d, sorted(e["dist"][h - 1]))))
+            out.append(("distance", "distance(h%d) = %s, admissible %s" % (h, d, sorted(e["dist"][h - 1])), (h,)))
             continue
         if e["strict"]:
             if d == "REMOTE" and h not in inplan:
-                out.append(("distance", "distance(h%d) = REMOTE but the plan %s does not use it" % (h, p)))
+                out.append(("distance", "distance(h%d) = REMOTE but the plan %s does not use it" % (h, p), (h,)))
             if d == "IGNORED" and h in inplan:
-                out.append(("distance", "distance(h%d) = IGNORED but the plan %s uses it" % (h, p)))
+                out.append(("distance", "distance(h%d) = IGNORED but the plan %s uses it" % (h, p), (h,)))
             if h in live and d != "IGNORED" and h not in inplan:
-                out.append(("distance", "h%d is live and %s but missing from the plan %s" % (h, d, p)))
+                out.append(("distance", "h%d is live and %s but missing from the plan %s" % (h, d, p), (h,)))
     return out
 
 
 def check_obs(st, obs):
     """All failures of one observation against the spec state `st` (list of (type, text))."""
     if obs["error"]:
-        return [("exception", obs["error"])]
+        return [("exception", obs["error"], ())]
     e = st["exp"]
     out = plan_failures(obs["plan1"], e) + plan_failures(obs["plan2"], e)
     if set(obs["plan1"]) != set(obs["plan2"]):
-        out.append(("plans-differ", "two consecutive plans hold different hosts: %s / %s" % (obs["plan1"], obs["plan2"])))
+        out.append(("plans-differ", "two consecutive plans hold different hosts: %s / %s" % (obs["plan1"], obs["plan2"]), ()))
     out += dist_failures(obs["dist"], obs["plan1"], e, st["known"], st["live"])
     # dedupe, keep order
     seen, res = set(), []
@@ -262,30 +266,43 @@ def _first_failure_at(pol, n, events, post, step_obs_check):
     return bool(step_obs_check(hz.observe()))
 
 
+def _grouped(events, pi, learned, local):
+    order = events[pi]["order"]
+    g = sorted(order, key=lambda h: (learned.get(h) or local, h))
+    return events[:pi] + [dict(events[pi], order=g)] + events[pi + 1:]
+
+
 def signature(pol, n, events, post, failures):
-    """Stable name of the defect class.  DCAware failures are attributed by counterfactual replays:
-      * the same history with the populate() hosts grouped by datacenter does not fail
-            -> DCAware.populate:ungrouped-hosts
-      * the same history on a policy configured with the contact points' datacenter instead of
-        auto-detection does not fail -> DCAware.auto-local-dc:unlocated-hosts-orphaned
-    everything else: <policy>.<last call>:<kind of failure>."""
+    """Stable name of the defect class.  Two DCAware defect classes are recognised by their mechanism plus a
+    counterfactual replay (so that an unrelated failure is not filed under them):
+      * DCAware.populate:ungrouped-hosts - a live local host is missing, the hosts of its datacenter were not
+        adjacent in the populate() order, and the same history with the populate() hosts grouped by datacenter
+        does not fail;
+      * DCAware.auto-local-dc:unlocated-hosts-orphaned - auto-detected local dc, some host had no datacenter when
+        populate() ran, the real policy still files hosts under the placeholder datacenter although the local dc
+        is known, and the same history (populate grouped) on a policy configured with the contact points'
+        datacenter does not fail.
+    Everything else: <policy>.<last call>:<kind of failure>."""
     t = failures[0][0]
+    involved = set(failures[0][2]) if len(failures[0]) > 2 else set()
     ev = events[-1]
     if pol["kind"] == "DCAware":
         def failing(obs):
             return check_obs(post, obs)
         pi = next((i for i, e in enumerate(events) if e["e"] == "Populate"), None)
-        if pi is not None:
-            dcs = {e["h"]: e["d"] for e in events[:pi] if e["e"] == "Learn"}
-            grouped = sorted(events[pi]["order"], key=lambda h: (dcs.get(h) or pol["local"], h))
-            if grouped != events[pi]["order"]:
-                alt = events[:pi] + [dict(events[pi], order=grouped)] + events[pi + 1:]
-                if not _first_failure_at(pol, n, alt, post, failing):
-                    return "DCAware.populate:ungrouped-hosts"
-        if pol["local"] == NODC:
-            alt_pol = dict(pol, local="A")
-            # with an explicit local dc the specification expects the same thing once detection has happened
-            if post["exp"]["strict"] and not _first_failure_at(alt_pol, n, events, post, failing):
+        learned = {e["h"]: e["d"] for e in events[:pi or 0] if e["e"] == "Learn"}
+        if pi is not None and t == "host-missing":
+            order = events[pi]["order"]
+            key = [learned.get(h) or pol["local"] for h in order]
+            split = any(key[i] == key[j] and any(key[m] != key[i] for m in range(i + 1, j))
+                        for i in range(len(order)) for j in range(i + 1, len(order)) if order[i] in involved or order[j] in involved)
+            if split and not _first_failure_at(pol, n, _grouped(events, pi, learned, pol["local"]), post, failing):
+                return "DCAware.populate:ungrouped-hosts"
+        if pi is not None and pol["local"] == NODC and post["exp"]["strict"] and NODC in learned.values():
+            hz, err = run_events(pol, n, events)
+            groups = getattr(hz.policy, "_dc_live_hosts", None)
+            stale = isinstance(groups, dict) and any((not k) and v for k, v in groups.items()) and bool(getattr(hz.policy, "local_dc", None))
+            if stale and not _first_failure_at(dict(pol, local="A"), n, _grouped(events, pi, learned, "A"), post, failing):
                 return "DCAware.auto-local-dc:unlocated-hosts-orphaned"
     extra = "[auto]" if (pol["kind"] == "DCAware" and pol["local"] == NODC) else ""
     return "%s%s.%s:%s" % (pol["kind"], extra, ev["e"], t)
